@@ -53,6 +53,17 @@ Definition markers (t : list item) : list nat :=
 Definition flatten_ops (ops : list op) : list arg :=
   concat (map (fun o => match o with Pct a => [a] | Args l => l end) ops).
 
+(* streaming a formatter into a stream that holds `pre` and has a pending width/fill/adjustment, then a
+   sentinel: with the right number of arguments the whole text is one padded item and the sentinel is not
+   padded; otherwise NOTHING of the formatter reaches the stream (and the width is still pending for the
+   sentinel) *)
+Definition spec_stream (pre : str) (w : nat) (c : byte) (left : bool) (fmt : str) (args : list str)
+    (sentinel : str) : str * bool :=
+  match spec_format fmt args with
+  | Ok text => (pre ++ pad w c left text ++ sentinel, true)
+  | Raise _ => (pre ++ pad w c left sentinel, false)
+  end.
+
 (* message of a raised exception: the argument texts one after the other *)
 Definition spec_message (rendered : list str) : str := concat rendered.
 
